@@ -170,11 +170,19 @@ def _clone(v):
     return copy.deepcopy(v)
 
 
+def _spec_view(t, v):
+    """contracts see a str / a list of one-character strings as the array of its code points (the real call gets the real value)"""
+    if t in ('char1', 'str') and not isinstance(v, np.ndarray):
+        return np.array([ord(ch) for ch in v], dtype=np.int64)
+    return v
+
+
 def check_call(ev, contract, func, args, check_frame=True):
     """args: dict name -> value.  Returns (status, detail):
        'skip' (requires false), 'ok', or 'fail' with the failing clause."""
     names = [p for p, _ in contract.params]
-    env0 = {k: _clone(args[k]) for k in names}
+    types = dict(contract.params)
+    env0 = {k: _spec_view(types[k], _clone(args[k])) for k in names}
     for r in contract.requires:
         try:
             if not ev.eval(r, env0, env0):
@@ -206,7 +214,7 @@ def check_call(ev, contract, func, args, check_frame=True):
     for name, cond in contract.raises.items():
         if ev.eval(cond, env0, env0):
             return 'fail', 'raises.%s: should have raised' % name
-    env1 = dict(zip(names, call_args))
+    env1 = {k: _spec_view(types[k], v) for k, v in zip(names, call_args)}
     env1['result'] = result
     env1['fresh_loc'] = lambda x: not any(isinstance(x, np.ndarray) and x.size and a.size and np.shares_memory(x, a) for a in inputs)
     for k, e in enumerate(contract.ensures):
